@@ -159,6 +159,23 @@ theorem validateCommitment_uses_protocol_root {τ : Type} (dhash : Bytes → Byt
       validateWitnessCommitment dhash (some (mroot H zero (zero :: rest.map wtxid))) txs := by
   rw [(witness_root_eq_spec H zero txid wtxid cb rest).2]
 
+/-- the same acceptance condition in protocol terms for a real coinbase: the commitment is the one
+    `GetWitnessCommitmentIndex` finds (last commitment-shaped output) -/
+theorem validateCommitment_spec (dhash : Bytes → Bytes) (root : Bytes) (cb : Tx) (rest : List Tx)
+    (in0 : TxIn) (ins : List TxIn) (hins : cb.ins = in0 :: ins) (hcb : cb.isCoinBase = true) :
+    validateWitnessCommitment dhash (some root) (cb :: rest) = .ok ↔
+      (commitment (cb.outs.map (·.pk)) = none ∧ (cb :: rest).any Tx.hasWitness = false) ∨
+      (∃ c nonce, commitment (cb.outs.map (·.pk)) = some c ∧ in0.witness = [nonce] ∧
+        nonce.length = 32 ∧ dhash (root ++ nonce) = c) := by
+  rw [validateCommitment_iff dhash root cb rest in0 ins hins, extractCommitment_eq_spec, if_pos hcb]
+
+/-- in a block without witness data the witness tree is the txid tree with a zeroed coinbase leaf -/
+theorem witness_leaves_witness_free {α τ : Type} (txid wtxid : τ → α) (zero : α) (cb : τ) (rest : List τ)
+    (h : ∀ t ∈ rest, wtxid t = txid t) :
+    leafHashes txid wtxid zero true (cb :: rest) = zero :: rest.map txid := by
+  simp only [leafHashes, if_true, List.cons.injEq, true_and]
+  exact List.map_congr_left h
+
 /-- an empty block / a coinbase without inputs is rejected before anything is hashed -/
 theorem validateCommitment_degenerate (dhash : Bytes → Bytes) (root : Option Bytes) (cb : Tx) (rest : List Tx)
     (h : cb.ins = []) :
